@@ -12,7 +12,7 @@
    watchdog). *)
 From Verif Require Import Base.Bytes Model.Types Model.GoLite Model.Detect Gen.TreeData Gen.SigData
   Model.Zip Model.Ole Model.Mkv Model.Tar Model.Checked Proofs.GoLiteP Proofs.SafeP Proofs.CheckedP Gen.FuncTerms Model.Detectors Proofs.TranslateP
-  Model.GoRes Model.SrcDetect Gen.SrcFuncs Proofs.SrcOleP Proofs.SrcZipP Proofs.SrcMkvP Proofs.SrcTarP Proofs.SrcAllP.
+  Model.GoRes Model.SrcDetect Gen.SrcFuncs Proofs.SrcOleP Proofs.SrcZipP Proofs.SrcMkvP Proofs.SrcTarP Proofs.SrcAllP Model.Sigs Proofs.SrcTextP.
 
 (* the bounds analysis is sound: a term it accepts never indexes or slices outside the header *)
 Theorem C01_bounds_analysis_sound : forall p raw, safe p = true -> evalp p raw <> Panic.
@@ -102,7 +102,7 @@ Print Assumptions C01_offset_detectors_never_panic.
 (* the same detectors AS TRANSLATED FROM THE CURRENT SOURCE (Gen/SrcFuncs.v, translator harness/gores.go: each Go
    statement one binding, every index / slice expression and binary.X.Uint32 call with its run-time check, Go's
    evaluation order, uint32 / uint8 wrap-around, loops over the input as range_loop, `for cond` as while_loop with
-   fuel): all twenty-two functions are inside the translator's fragment ... *)
+   fuel): all thirty-four functions are inside the translator's fragment ... *)
 Theorem C01_offset_detectors_all_translated : src_untranslated = [].
 Proof. reflexivity. Qed.
 Print Assumptions C01_offset_detectors_all_translated.
@@ -126,6 +126,25 @@ Proof.
   - apply src_matchOleClsid_ok. - apply src_zipContains_ok. - apply src_CRX_ok. - apply src_tarParseOctal_ok.
 Qed.
 Print Assumptions C01_source_helpers_never_panic.
+
+(* the four combinators that loop over the input - ciPrefix, markup, xml, shebang (24 registered signatures) - and their
+   helpers, as translated from the current source: the index-driven loops `for ; i < len(in) && isWS(in[i]); i++ {}`
+   (forwards in trimLWS / firstLine, backwards in trimRWS), the loop over the signature reading raw[i], raw[len(sig)],
+   and the loops over the signature lists never index out of range, never exhaust their fuel (S (len in) rounds) and
+   compute the list models, for EVERY signature list and every input *)
+Theorem C01_source_text_combinators_never_panic :
+  (forall sigs raw l, src_ciPrefix sigs raw l = Val (ci_prefix sigs raw)) /\
+  (forall sigs raw l, src_markup sigs raw l = Val (markup sigs raw)) /\
+  (forall sigs raw l, src_xml sigs raw l = Val (xml_det sigs raw)) /\
+  (forall sigs raw l, src_shebang sigs raw l = Val (shebang sigs raw)) /\
+  (forall l, src_trimLWS l = Val (trim_lws l)) /\ (forall l, src_trimRWS l = Val (trim_rws l)) /\
+  (forall l, src_firstLine l = Val (first_line l)).
+Proof.
+  repeat split; intros.
+  - apply src_ciPrefix_ok. - apply src_markup_ok. - apply src_xml_ok. - apply src_shebang_ok.
+  - apply src_trimLWS_ok. - apply src_trimRWS_ok. - apply src_firstLine_ok.
+Qed.
+Print Assumptions C01_source_text_combinators_never_panic.
 
 (* non-vacuity of the translation: the translated CRX really evaluates its slices (a 15-byte input is refused by the
    guard, not by luck), and the partial operations do panic when unguarded *)
